@@ -96,7 +96,7 @@ class Ctx:
             body = {'property': self.prop, 'key': jsonable(key), 'what': what, 'replay': jsonable(replay)}
             blob = json.dumps(body, sort_keys=True, indent=1)
             h = hashlib.sha1(blob.encode()).hexdigest()[:16]
-            d = os.path.join(VERIF, 'replays', self.prop)
+            d = os.path.join(os.environ.get('VERIF_REPLAY_DIR') or os.path.join(VERIF, 'replays'), self.prop)
             os.makedirs(d, exist_ok=True)
             path = os.path.join(d, h + '.json')
             with open(path, 'w') as fh:
@@ -125,7 +125,7 @@ class Ctx:
             'wall_s': round(time.time() - self.t0, 2),
             'violations': int(self.n_viol),
         }
-        d = os.path.join(VERIF, 'evidence')
+        d = os.environ.get('VERIF_EVIDENCE_DIR') or os.path.join(VERIF, 'evidence')
         os.makedirs(d, exist_ok=True)
         tmp = os.path.join(d, self.prop + '.json.tmp')
         with open(tmp, 'w') as fh:
